@@ -67,6 +67,7 @@ structure Frame where
   envs : Array Nat := #[]              -- `func->envs` (heap addresses of env objects)
   ownEnv : Option Nat := none          -- `frame->env` once a closure captured this frame
   retReg : Nat := 0                    -- register of the caller that receives the result
+  self : Nat := 0                      -- heap address of the closure being run (JOP_LOAD_SELF)
   deriving Inhabited
 
 /-- Source position of a raised error: (line, column), -1 when unknown -/
@@ -80,6 +81,7 @@ structure State where
   heap : Array HeapObj := #[]
   args : Array Value := #[]            -- values pushed by push/push2/push3/pusha for the next call
   trace : Array String := #[]          -- ordered effect trace (canonical text of each effect)
+  result : Value := Value.nil          -- value handed to (RES v)
   deriving Inhabited
 
 /-! ### registers of the current frame -/
